@@ -78,6 +78,15 @@ func genSpec(r *rand.Rand, name string) *h.Spec {
 	}
 	s.Lat = h.Latency{Min: 0, Max: time.Duration(r.IntN(3)) * ms}
 	s.Watch = h.WatchPolicy{DelayMax: time.Duration(r.IntN(5)) * ms, DupP: 0.1}
+	if r.IntN(3) == 0 {
+		// slow store windows: calls that take longer than a stop call is prepared to wait,
+		// so that background goroutines of one run are still in flight when the next begins
+		for w, n := 0, 2+r.IntN(4); w < n; w++ {
+			at := time.Duration(100+r.IntN(1200)) * ms
+			s.Rules = append(s.Rules, h.FaultRule{Client: "*", Op: []string{"", "Get", "Update", "Create", "Watch"}[r.IntN(5)], From: at, To: at + time.Duration(100+r.IntN(200))*ms,
+				Kind: []string{"hang", "hang", "acklost", "err"}[r.IntN(4)], Err: "timeout", Hang: time.Duration(100+r.IntN(400)) * ms})
+		}
+	}
 	return s
 }
 
@@ -122,6 +131,9 @@ func runScenario(t *testing.T, r *rand.Rand, res *h.Result) {
 	calm := r.IntN(2) == 0
 	if calm {
 		res.Obs["c20.scenarios_calm"]++
+	}
+	if len(spec.Rules) > 0 {
+		res.Obs["c20.scenarios_slow_store"]++
 	}
 	x, err := h.NewRT(spec)
 	if err != nil {
